@@ -26,6 +26,9 @@ def main():
         if a.startswith("--inc="):
             incs = a.split("=", 1)[1].split(",")
     src = f"/tmp/seed_{pid}_out"
+    for a in sys.argv[2:]:
+        if a.startswith("--from="):
+            src = a.split("=", 1)[1]
     for f in ("patch.diff", "demo.cpp", "notes.md"):
         if not os.path.exists(os.path.join(src, f)):
             print("missing", f); return 2
